@@ -77,7 +77,13 @@ func c04Check(c *Ctx, spec *gen.TableSpec, aligns []int, decos []namedDeco, st *
 		})
 		applyAligns(t0, st.PreAligns)
 		reused.SetDecoration(decos[len(decos)-1].d).Render()
-		b.Finalize()
+		if gen.Hash64(spec.Shape(), "finalize")%4 == 0 {
+			// the items reach their final state, and their cells are updated, from inside the judged render
+			b.FinalizeFromCallbacks()
+			c.Rec.Count("staged_cases_whose_items_are_refreshed_by_pre-cell_callbacks_during_the_judged_render", 1)
+		} else {
+			b.Finalize()
+		}
 		if viaCallback {
 			c04AlignFromCallback(t0, aligns)
 		} else {
